@@ -1,6 +1,7 @@
 import Batteries.Tactic.Alias
 import GenlmModel.Proofs.ChainRule
 import GenlmModel.Proofs.Prio
+import GenlmModel.Proofs.IncCky
 /-! # C04 — grammar language models are the exact left-to-right factorisation -/
 namespace Genlm.Props.C04
 alias normalize_sums_to_one := Genlm.normalize_sums_to_one
@@ -8,4 +9,9 @@ alias normalize_zero := Genlm.normalize_zero
 alias conditionals_sum_to_one := Genlm.cond_sums_to_one
 alias chain_rule := Genlm.chain_rule_lm
 alias lm_call_is_chain_rule := Genlm.lmCall_chain_rule
+/-- CKY back end: before normalisation the weight computed for a next token (outside pass) equals the weight the
+parser assigns to the context extended by that token — for EVERY grammar and context -/
+alias cky_outside_is_inside_of_extension := Genlm.outside_is_inside_of_extension
+alias cky_next_token_weight_is_derivation_sum := Genlm.incCky_pnext_is_WN
+alias cky_next_token_zero_outside_vocabulary := Genlm.incCkyPNext_notin
 end Genlm.Props.C04
